@@ -10,6 +10,14 @@ THEOREMS = ["c03_dup_refused", "c03_fresh_id", "c03_by_position", "c03_position_
             "c03_by_id", "c03_appended_last", "c03_order_after_delete"]
 # nested sources (children, grandchildren) in the source lists of an array, a tag and a group, then probes of those lists
 PRELUDES = [
+    # every container kind: create X, create X again (must be refused and leave the container as it was), probe
+    [["create", 0, "CBlocks", "B", "t", []], ["create", 0, "CBlocks", "B", "t", []], ["create", 1, "CDataArrays", "x", "t", [1]],
+     ["create", 1, "CDataArrays", "x", "t", [2]], ["create", 1, "CTags", "x", "t", [1]], ["create", 1, "CTags", "x", "t", [2]],
+     ["create", 1, "CGroups", "x", "t", []], ["create", 1, "CGroups", "x", "t", []], ["create", 1, "CDataFrames", "x", "t", [1, 2]],
+     ["create", 1, "CDataFrames", "x", "t", [3]], ["create", 1, "CSources", "x", "t", []], ["create", 1, "CSources", "x", "t", []],
+     ["create_mtag", 1, "x", "t", 2], ["create_mtag", 1, "x", "t", 2], ["create", 0, "CSections", "x", "t", []],
+     ["create", 0, "CSections", "x", "t", []], ["create", 8, "CProperties", "x", "t", [1]], ["create", 8, "CProperties", "x", "t", [2]],
+     ["probe", 1, "CDataFrames"], ["probe", 1, "CDataArrays"], ["probe", 1, "CMultiTags"], ["probe", 8, "CProperties"], ["probe", 0, "CBlocks"]],
     [["create", 0, "CBlocks", "B", "t", []], ["create", 1, "CSources", "s", "t", []], ["create", 2, "CSources", "c", "t", []],
      ["create", 3, "CSources", "cc", "t", []], ["create", 1, "CDataArrays", "a", "t", [1]], ["create", 1, "CTags", "t", "t", [1]],
      ["create", 1, "CGroups", "g", "t", []], ["append", 5, "LSources", 3], ["append", 5, "LSources", 4], ["append", 5, "LSources", 2],
